@@ -237,7 +237,7 @@ func (k *Check) ExploreProc(name string, cfg mc.Config, param any, body func(*mc
 	if procs == 0 {
 		procs = k.Workers
 	}
-	spec := mc.WorkerSpec{Args: []string{k.ID, k.Tier, "--worker", name}, Procs: procs, Env: []string{"GOMAXPROCS=2"}}
+	spec := mc.WorkerSpec{Args: []string{k.ID, k.Tier, "--worker", name}, Procs: procs, Env: []string{"GOMAXPROCS=1"}}
 	r := mc.ExploreSharded(name, cfg, spec, param, body)
 	k.parts = append(k.parts, r)
 	fmt.Fprintf(os.Stderr, "[%s] %-40s execs=%-9d points=%-10d outcomes=%-7d nontrivial=%-7d states=%-7d viol=%d known=%d exhaustive=%v %.1fs\n",
